@@ -45,7 +45,10 @@ func (r *run) pickCrashPoints(log []simos.Effect, want int, seed uint64) []int {
 			w[ci] = 8
 		case simos.KWrite:
 			if base == "blockchain.new" {
-				w[ci] = 3 // index record / flag byte
+				w[ci] = 3 // index record
+				if len(e.Data) == 1 {
+					w[ci] = 12 // a flag byte rewritten in place: one of several when a branch is marked invalid
+				}
 			}
 			if strings.HasSuffix(base, ".db.tmp") {
 				w[ci] = 2
